@@ -24,11 +24,13 @@ EXTENDS Integers, Sequences, FiniteSets, TLC
 
 CONSTANTS Letters,     \* characters that are alphabetic (formatter names)
           Digits,      \* "0" .. "9" as far as the instance uses them
+          OtherAlnum,  \* characters that are alphanumeric for names but neither letters nor decimal digits
+                       \* (e.g. ARABIC-INDIC DIGIT THREE): part of a name, never part of a width
           DebugBuild   \* TRUE: debug_assertions on (the {D(..)} group renders), FALSE: {R(..)} renders
 
 Special == {"{", "}", "(", ")", "\\"}
 IsAlpha(c) == c \in Letters
-IsAlnum(c) == c \in Letters \cup Digits
+IsAlnum(c) == c \in Letters \cup Digits \cup OtherAlnum
 EOF == "<eof>"
 Peek(s, p) == IF p >= 1 /\ p <= Len(s) THEN s[p] ELSE EOF
 
